@@ -23,16 +23,28 @@ package main
 //@ func main.isInputStdin
 //@   ensures stdin [C16]: result == (path == "" || path == "-")
 
-// libFailed: a call into the gtree library made by this process has returned an error; libCalls counts those calls.
-// The four one-line wrappers (output, outputWithValidation, mkdir, verify) only forward to the library; their
-// contracts publish the library's verdict in these ghost variables and are assumed.
-//@ ghost var libFailed bool
-//@ ghost var libCalls int
-//@ contract libWrapper
+// The four one-line wrappers forward to the library. The library's entry contracts keep ghost books (libWriter,
+// libFailed, libCalls, declared in /repo/verif_contracts.go); the wrappers are verified to hand the library the
+// process's own stdout (not a buffer whose flush could fail unseen) and to return the library's verdict.
+//@ func main.output
+//@   modifies libWriter, libFailed, libCalls, Node.children, Node.parent, Node.brnch.value, Node.brnch.path, list.List.view, list.Element.backOf, counter.n, bufio.Scanner.pos, bufio.Scanner.failed, markdown.Parser.isSharpRoot, markdown.Parser.spaces, markdown.Parser.sep, out, wfail, defaultSpreaderSimple.w, encTrace, encoders
+//@   ensures direct [C16]: libWriter == os.Stdout
+//@   ensures pub [C16]: libCalls == old(libCalls) + 1 && libFailed == (old(libFailed) || result != nil)
+//@ func main.outputWithValidation
+//@   modifies libWriter, libFailed, libCalls, Node.children, Node.parent, Node.brnch.value, Node.brnch.path, list.List.view, list.Element.backOf, counter.n, bufio.Scanner.pos, bufio.Scanner.failed, markdown.Parser.isSharpRoot, markdown.Parser.spaces, markdown.Parser.sep, out, wfail, defaultSpreaderSimple.w, encTrace, encoders
+//@   ensures direct [C16]: libWriter == color.Output
+//@   ensures pub [C16]: libCalls == old(libCalls) + 1 && libFailed == (old(libFailed) || result != nil)
+//@ func main.mkdir
+//@   modifies libFailed, libCalls, Node.children, Node.parent, Node.brnch.value, Node.brnch.path, list.List.view, list.Element.backOf, counter.n, bufio.Scanner.pos, bufio.Scanner.failed, markdown.Parser.isSharpRoot, markdown.Parser.spaces, markdown.Parser.sep, fsOps, fsFailed, defaultGrowerSimple.enabledValidation
+//@   ensures pub [C16]: libCalls == old(libCalls) + 1 && libFailed == (old(libFailed) || result != nil)
+//@ func main.verify
+//@   modifies libFailed, libCalls, Node.children, Node.parent, Node.brnch.value, Node.brnch.path, list.List.view, list.Element.backOf, counter.n, bufio.Scanner.pos, bufio.Scanner.failed, markdown.Parser.isSharpRoot, markdown.Parser.spaces, markdown.Parser.sep, defaultGrowerSimple.enabledValidation, maps
+//@   ensures pub [C16]: libCalls == old(libCalls) + 1 && libFailed == (old(libFailed) || result != nil)
+// outputContinuously (--watch: a ticker loop that only ends on an error) is not under contract
+//@ func main.outputContinuously
 //@   assumed
-//@   modifies libFailed, libCalls
-//@   ensures pub: libCalls == old(libCalls) + 1 && (result != nil ==> libFailed) && (result == nil ==> libFailed == old(libFailed)) && (old(libFailed) ==> libFailed)
-//@ applies libWrapper to main.output, main.outputWithValidation, main.mkdir, main.verify, main.outputContinuously
+//@   modifies libWriter, libFailed, libCalls, out, wfail
+//@   ensures loops: result != nil
 
 // the option constructors of the library return function values; nothing about them is needed here
 //@ contract optionCtor
@@ -47,10 +59,9 @@ package main
 
 //@ contract actionStatus
 //@   requires nn: c != nil
-//@   modifies libFailed, libCalls, fsFailed
+//@   modifies libWriter, libFailed, libCalls, fsFailed, fsOps, Node.children, Node.parent, Node.brnch.value, Node.brnch.path, list.List.view, list.Element.backOf, counter.n, bufio.Scanner.pos, bufio.Scanner.failed, markdown.Parser.isSharpRoot, markdown.Parser.spaces, markdown.Parser.sep, out, wfail, defaultSpreaderSimple.w, encTrace, encoders, defaultGrowerSimple.enabledValidation, maps
 //@   ensures coder [C16]: result != nil ==> isExitCoder(result) && exitCodeOf(result) != 0
 //@   ensures truthful [C16]: result == nil ==> libFailed == old(libFailed)
-//@   ensures once [C16]: libCalls <= old(libCalls) + 1
 //@ applies actionStatus to main.actionOutput, main.actionMkdir, main.actionVerify
 
 // main: when app.Run reports an error the process must not end with status 0. The normal return of main is
